@@ -87,9 +87,11 @@ pub fn exec_op2(sim: &Sim, op: &Op, _in_cb: bool) {
         Op::InsertTransient { id, child, from_default, script } => crate::transient::insert_transient(sim, *id, child, *from_default, script),
         Op::TrRemove(id) | Op::TrMap(id) | Op::TrReplace(id, _) => crate::transient::tr_op(sim, *id, op, _in_cb, false),
         Op::TrChildFail(id, w) => crate::transient::arm_child_failure(sim, *id, *w),
+        Op::TrReplaceFailRetry(id, spec) => crate::transient::replace_fail_retry(sim, *id, spec),
+        Op::TrAssign(id, _, lazy) => crate::transient::tr_op(sim, *id, op, _in_cb, *lazy),
         Op::TrRemoveLazy(id) => crate::transient::tr_op(sim, *id, &Op::TrRemove(*id), _in_cb, true),
         Op::TrReplaceLazy(id, c) => crate::transient::tr_op(sim, *id, &Op::TrReplace(*id, c.clone()), _in_cb, true),
-        Op::AdaptIo { id, fd, blocking, .. } => crate::adapter::adapt_io(sim, *id, *fd, *blocking),
+        Op::AdaptIo { id, fd, blocking, flushy, .. } => crate::adapter::adapt_io(sim, *id, *fd, *blocking, *flushy),
         Op::AdapterIntoInner(id) => crate::adapter::release(sim, *id, true),
         Op::AdapterDrop(id) => crate::adapter::release(sim, *id, false),
         Op::AdapterTask { exec, task, adapter, kind, total, chunk, then } => crate::adapter::adapter_task(sim, *exec, *task, *adapter, *kind, *total, *chunk, *then),
